@@ -31,7 +31,21 @@ def cases(tier, seed):
 def build_inputs(c):
     n = c["n"]
     y = numpy.arange(n) * 10.0 + 1
-    X = (numpy.arange(n * 2).reshape(n, 2) * 1.0 + 1000) if c["has_x"] else None
+    # the series as it often arrives: a column of a table, every other observation, a float32 / integer vector (same values)
+    layout = ("contiguous", "column-of-a-table", "every-other", "float32", "int64")[(c["n"] + c["past"] + c["delay2"] + int(c["has_x"]) + 2 * int(c["has_w"])) % 5]
+    if layout == "column-of-a-table":
+        table = numpy.full((n, 3), -7.0)
+        table[:, 1] = y
+        y = table[:, 1]
+    elif layout == "every-other":
+        buf = numpy.full(2 * n, -7.0)
+        buf[::2] = y
+        y = buf[::2]
+    elif layout == "float32":
+        y = y.astype(numpy.float32)
+    elif layout == "int64":
+        y = y.astype(numpy.int64)
+    X = (numpy.arange(n * 2).reshape(n, 2) * 1.0 + 1000.5) if c["has_x"] else None       # fractional: a truncation would show
     w = (numpy.arange(n) * 1.0 + 500) if c["has_w"] else None
     return X, y, w
 
